@@ -95,15 +95,19 @@ def main(argv: List[str]) -> int:
     if args.tier == "thorough" and not args.rev:
         # informational: the checker's own both-ways self-test for this property (never changes the exit code)
         try:
-            from .selftest import regression_replay_for, rename_summary_for, summary_for
+            from .selftest import refactor_summary_for, regression_replay_for, rename_summary_for, summary_for
 
             st = summary_for(pid, args)
             rr = regression_replay_for(pid, args)
             rf = rename_summary_for(pid, args)
+            xf = refactor_summary_for(pid, args)
             if st is not None:
                 print(f"{pid} selftest: {st.get('summary')}")
             print(f"{pid} regression replay: {rr['summary']}")
             print(f"{pid} rename fuzz: {rf['summary']}")
+            print(f"{pid} refactor fuzz: {xf['summary']}")
+            for r in xf["false_alarms"]:
+                print(f"SELFTEST-WARNING {pid}: rewrite {r} raised a false alarm")
             for r in (st or {}).get("failed", []):
                 print(f"SELFTEST-WARNING {pid}: variant `{r.get('variant')}` -> {r.get('result')} exit={r.get('exit')} fired={r.get('fired')}")
             for r in rr["replays"]:
@@ -119,6 +123,7 @@ def main(argv: List[str]) -> int:
                     ev["coverage"]["selftest"] = st
                 ev["coverage"]["regression_replay"] = rr
                 ev["coverage"]["rename_fuzz"] = rf
+                ev["coverage"]["refactor_fuzz"] = xf
                 with open(p, "w") as f:
                     json.dump(ev, f, indent=1)
         except Exception as e:  # the self-test is informational only
